@@ -108,6 +108,19 @@ func (s *V2SessionlessTransport) newV2Session(ctx context.Context, opts *V2Sessi
 	if err != nil {
 		return nil, err
 	}
+	// the BMC must confirm exactly what we proposed; anything else would be a
+	// silent change (typically a downgrade) of the session's protection
+	if openSessionRsp.AuthenticationPayload.Algorithm != cipherSuite.AuthenticationAlgorithm ||
+		openSessionRsp.IntegrityPayload.Algorithm != cipherSuite.IntegrityAlgorithm ||
+		openSessionRsp.ConfidentialityPayload.Algorithm != cipherSuite.ConfidentialityAlgorithm {
+		return nil, fmt.Errorf("BMC selected %v/%v/%v, proposed %v/%v/%v",
+			openSessionRsp.AuthenticationPayload.Algorithm,
+			openSessionRsp.IntegrityPayload.Algorithm,
+			openSessionRsp.ConfidentialityPayload.Algorithm,
+			cipherSuite.AuthenticationAlgorithm,
+			cipherSuite.IntegrityAlgorithm,
+			cipherSuite.ConfidentialityAlgorithm)
+	}
 
 	// RAKP Message 1, 2
 	remoteConsoleRandom := [16]byte{}
